@@ -75,6 +75,16 @@ class EncRun:
             src_ = fr.deref_operand(args[0])
             fr.storev(dest, Agg([Agg([ELimb(src_, k_) for k_ in range(6)])], ('repr_of', freeze(src_), src_)))
             return True
+        if name == 'char' and c.get('trait') == 'ff::PrimeField' and not args and (c.get('self_ty') or '').endswith('fq::Fq'):
+            # the modulus as a representation (what it is, is C08's business: MODULUS is checked there)
+            import mathlib as M_
+            fr.storev(dest, ('repr-const', M_.Q))
+            return True
+        if name == 'div2' and c.get('trait') == 'ff::PrimeFieldRepr' and len(args) == 1:
+            v_ = fr.deref_operand(args[0])
+            if isinstance(v_, tuple) and len(v_) == 2 and v_[0] == 'repr-const':
+                fr.store_through(args[0], ('repr-const', v_[1] >> 1))
+                return True
         if name == 'to_be_bytes' and len(args) == 1 and isinstance(fr.operand(args[0]), ELimb):
             # limb k big-endian = bytes (5 - k) * 8 .. + 8 of the 48-byte big-endian representation
             l_ = fr.operand(args[0])
@@ -103,6 +113,24 @@ class EncRun:
                     a = fr._project(fr.store.get(a.root, TOP), a.proj)
                 if isinstance(b, Ref):
                     b = fr._project(fr.store.get(b.root, TOP), b.proj)
+            # canonical representation against the constant (q - 1)/2: for a canonical residue y, y > (q-1)/2 <=> y > q - y
+            # <=> y > -y in the field's order (and y = 0 is on the `not greater` side of both)
+            import mathlib as M_
+
+            def as_order_test(nm_, x_, k_):
+                if isinstance(x_, Agg) and x_.kind and x_.kind[0] == 'repr_of' and isinstance(k_, tuple) and len(k_) == 2 and k_[0] == 'repr-const':
+                    src_ = x_.kind[2]
+                    pos_ = ('gt', freeze(src_), freeze(neg_of(src_)), 'bls12_381::fq::Fq')
+                    if (nm_, k_[1]) in (('gt', (M_.Q - 1) // 2), ('ge', (M_.Q + 1) // 2)):
+                        return pos_
+                    if (nm_, k_[1]) in (('le', (M_.Q - 1) // 2), ('lt', (M_.Q + 1) // 2)):
+                        return ('not', pos_)
+                return None
+            FLIPN = {'gt': 'lt', 'lt': 'gt', 'ge': 'le', 'le': 'ge'}
+            ot_ = as_order_test(name, a, b) or (as_order_test(FLIPN[name], b, a) if name in FLIPN else None)
+            if ot_ is not None:
+                fr.storev(dest, ('bool', ot_))
+                return True
             fr.storev(dest, ('bool', (name, freeze(a), freeze(b), c.get('self_ty'))))
             return True
         if c.get('trait') == 'std::cmp::Ord' and name == 'cmp':
